@@ -807,6 +807,11 @@ func c12Agreement(res *world.Result, logf func(string, ...interface{}), h *world
 		b = randomBytes()
 		desc = "random"
 	}
+	if len(b) >= 4 && simrt.Flip("ag.zero-first-word", 0.03) {
+		// a first word of zero: a legacy envelope whose name is empty, or nothing at all
+		b = append([]byte{0, 0, 0, 0}, b[4:]...)
+		desc += "+zero-first-word"
+	}
 	logf("agreement: expected type %d, %d bytes (%s): %x", et, len(b), desc, clip(b, 96))
 	full := simio.Plan{TruncAt: -1, ErrAt: -1}
 	r1 := decodeRequest(et, b, full)
